@@ -208,6 +208,41 @@ def rule_equivalency_canonical(ctx: Ctx) -> None:
         raise AnalysisError("mixed_stabilizer_equivalency: no tableau comparison found")
 
 
+def rule_inverse_side(ctx: Ctx) -> None:
+    """conv.inverse-side: _graph_finder brings the generators to the form [I | A] by multiplying with the inverse of the X block: A = X^-1 Z.
+    Written on transposes, A^T = Z^T (X^T)^-1.  So the matrix that is inverted and the side it is multiplied from go together: `z.T @ inv(x.T)`
+    or `inv(x) @ z`; `z.T @ inv(x)` is Z^T X^-1, which equals A^T only when the reduced X block happens to be symmetric."""
+    repo = ctx.repo
+    m = repo.module(SRC)
+    fn = repo.anchor(SRC, "_graph_finder")
+    ctx.touch(m, fn)
+    from ..core import deref as _deref
+    prods = [b for b in ast.walk(fn) if isinstance(b, ast.BinOp) and isinstance(b.op, ast.MatMult)]
+    done = False
+    for b in prods:
+        for inv_side, other, side in ((b.right, b.left, "right"), (b.left, b.right, "left")):
+            e = _deref(fn, inv_side)
+            invs = [c for c in ast.walk(e) if isinstance(c, ast.Call) and (call_name(c) or "").endswith("linalg.inv") and c.args]
+            if not invs:
+                continue
+            if norm(other).replace(".T", "") == norm(invs[0].args[0]).replace(".T", ""):
+                continue      # inv(M) @ M: a self-check of the inverse, not the reduction of the Z block
+            done = True
+            arg_t = norm(invs[0].args[0]).endswith(".T")
+            oth_t = norm(other).endswith(".T")
+            # z.T @ inv(x.T)  (both transposed, inverse on the right)   or   inv(x) @ z  (none transposed, inverse on the left)
+            ok = (side == "right" and arg_t and oth_t) or (side == "left" and not arg_t and not oth_t)
+            if ok:
+                ctx.ok("conv.inverse-side", m, b, what="inverse of the X block applied on the matching side")
+            else:
+                ctx.fail("conv.inverse-side", m, b,
+                         f"_graph_finder computes `{short(b, 60)}` with `{short(invs[0], 40)}`: multiplying Z^T from the right needs the inverse of X^T (and X^-1 goes on "
+                         f"the left of Z); this combination is Z^T X^-1, which is the adjacency matrix only when the reduced X block is symmetric — the edge 0-1 "
+                         f"given as {{ZX, YY}} is refused as 'not a graph'", func="_graph_finder", construct="_graph_finder: inverse and product on mismatched sides")
+    if not done:
+        raise AnalysisError("_graph_finder: the product with the inverse of the X block was not found")
+
+
 def rule_no_sign_precondition(ctx: Ctx) -> None:
     """convert.no-sign-precondition: a stabilizer -> graph conversion accepts |G> in *any* generating set, and products of the standard
     generators carry minus signs (K_a K_b = -Y.Y.. for adjacent a, b).  So no assertion / raise in these functions may reject an input on
@@ -249,6 +284,7 @@ def rule_no_sign_precondition(ctx: Ctx) -> None:
 
 def run(ctx: Ctx) -> None:
     rule_no_sign_precondition(ctx)
+    rule_inverse_side(ctx)
     from .c17 import rule_pauli_from_bits
     rule_pauli_from_bits(ctx)
     rule_equivalency_canonical(ctx)
@@ -396,6 +432,7 @@ def _filtered_positions(src: str) -> str:
 
 
 KNOCKOUTS = [
+    Knockout("graph-finder-inverts-untransposed-block", SRC, sub_once("    x_inv = (np.rint(np.linalg.det(x_mat.T) * np.linalg.inv(x_mat.T)) % 2).astype(int)\n", "    x_inv = (np.rint(np.linalg.det(x_mat) * np.linalg.inv(x_mat)) % 2).astype(int)\n"), "conv.inverse-side", "mismatched sides"),
     Knockout("graph-conversion-refuses-negative-signs", SRC, sub_once("        tableau = input_stabilizer\n        graph = _graph_finder(tableau.x_matrix, tableau.z_matrix)\n", "        tableau = input_stabilizer\n        assert not np.any(tableau.phase), \"Input stabilizer is not a graph state.\"\n        graph = _graph_finder(tableau.x_matrix, tableau.z_matrix)\n"), "convert.no-sign-precondition", "precondition on signs"),
     Knockout("row-reduction-z-block-added-from-other-row", "graphiq/backends/stabilizer/functions/linalg.py", sub_nth("                z_matrix = add_rows(z_matrix, pivot[0], j)\n", "                z_matrix = add_rows(z_matrix, the_ones[0], j)\n", 0), "sibling.xz-rowops", "_row_red_one_step"),
     Knockout("position-finder-starts-before-first-column", SRC, sub_once("    pivot = [0, 0]\n    n = x_matrix.shape[0]\n    pos_list = []", "    pivot = [-1, -1]\n    n = x_matrix.shape[0]\n    pos_list = []"), "index.negative-start", "_position_finder"),
